@@ -28,6 +28,37 @@ def mentions_inputs(node, fn):
     return sorted(names & INPUTS)
 
 
+def budget_value(F, fn, roles):
+    """Normal form of the Option the statement that arms the timer tests (`if let Some(time) = time` / `match time`), evaluated
+    forward through the statements before it (mutable locals, branches merged; the option-parsing loop makes the parameters
+    free variables).  Returns (term, None) or (None, reason)."""
+    body = hir.strip(fn["hir"]["body"])
+    if "timer" not in roles:
+        return None, "no timer thread found"
+    tpath = roles["timer"]["path"]
+    idx = [i for i, st in enumerate(body.get("stmts") or []) if any(n.get("k") == "Closure" and n.get("def") == tpath for n, _ in hir.walk(st))]
+    if len(idx) != 1:
+        return None, "the timer is not armed by one top-level statement of command_go"
+    st = hir.strip(body["stmts"][idx[0]])
+    if st.get("k") == "SSemi":
+        st = hir.strip(st["e"])
+    if st.get("k") == "If" and isinstance(st.get("cond"), dict):
+        c = st["cond"]
+        lets_ = [x for x, _ in hir.walk(c) if x.get("k") == "Let"] if c.get("k") != "Let" else [c]
+        scr = lets_[0]["init"] if len(lets_) == 1 else None
+    elif st.get("k") == "Match":
+        scr = st["e"]
+    else:
+        scr = None
+    if scr is None:
+        return None, "the statement that arms the timer does not test an Option"
+    h2 = dict(fn["hir"], body=dict(body, stmts=body["stmts"][:idx[0]], expr=scr))
+    try:
+        return hir.Exec(h2, F, depth=40, tolerant=True).run(), None
+    except hir.Unsupported as e:
+        return None, "statement form not summarised (%s)" % e
+
+
 def run(ctx):
     F = ctx.facts
     fn = F.fn(GO)
@@ -64,169 +95,174 @@ def run(ctx):
     sat = [n for n, _ in hir.walk(body) if n.get("k") == "MethodCall" and n["name"] in ("saturating_add", "saturating_sub", "saturating_mul", "min")
            and mentions_inputs(n, fn)]
     ctx.floor("C13.A1", "saturating/min operations on clock values", len(sat), 3)
-    # A2 / A3 / A4: every value `time` can be given, as cases (conditions on the way, value)
+    # A2 / A3 / A4: the budget (the Option the timer statement tests) as one normal form, decided by cases over which `go`
+    # parameters were given and whose turn it is (S-eval): the written form - assignments to a mutable local, one expression with
+    # Option combinators, match or if-let - is free
     lets = {}
     for n, anc in hir.walk(body):
         if n.get("k") == "SLet" and n["pat"].get("k") == "PBind" and n.get("init") is not None:
             lets.setdefault(n["pat"]["name"], []).append(n)
-    symt = hir.Sym(env, F, depth=40, through=True)
-    assign_time = [n for n, _ in hir.walk(body) if n.get("k") == "Assign" and hir.strip(n["l"]).get("to", {}).get("name") == "time"]
-    cases = []      # (assign node, guards+conds as [(text, pol)], millis term or None, raw value)
-    for a in assign_time:
-        g0 = [(hir.fmt(hir.canon(x[1]), 300), x[2]) for x in (hir.guards_of(a, body, sym) or []) if x[0] == "if"]
-        glets = [x[1] for x in (hir.guards_of(a, body, sym) or []) if x[0] == "if" and x[2] is True and x[1][0] == "let"]
-        try:
-            split = hir.lift_ifs(symt(a["r"]))
-        except ValueError:
-            split = [((), symt(a["r"]))]
-        for conds, v in split:
-            # drop impossible combinations (the same scrutinee matched against two different patterns)
-            seen_m = {}
-            consistent = True
-            for c, pol in conds:
-                if isinstance(c, tuple) and c and c[0] == "matches" and pol:
-                    if seen_m.setdefault(c[1], c[2]) != c[2]:
-                        consistent = False
-            if not consistent:
-                continue
-            cs = g0 + [(hir.fmt(hir.canon(c), 300), pol) for c, pol in conds if isinstance(c, tuple)]
-            ms = None
-            if v[0] == "ctor" and str(v[1]).endswith("Some") and v[2][0][0] == "call" and str(v[2][0][1]).endswith("Duration::from_millis"):
-                ms = v[2][0][2][0]
-            cases.append((a, cs, ms, v, glets))
+    roles = p14.closures_by_role(F)
+    V, why = budget_value(F, fn, roles)
+    ctx.check("C13.A3", "budget-value-extracted", V is not None, fn=GO, file=fn["file"], nontrivial=False,
+              what="the time budget tested before the timer is armed could not be summarised: " + str(why), found=why)
+    SOME, NONE = "std::prelude::v1::Some", ("variant", "std::prelude::v1::None")
+    CLOCKS = ("wtime", "btime", "winc", "binc")
+    players = sorted({t for t in (hir.subterms(V) if V is not None else ()) if t and ((t[:2] == ("call", "chess::Game::player")) or (t[0] == "field" and t[-1] == "current_player"))}, key=str)
+
+    def case(given, side):
+        a = {}
+        for nm in CLOCKS + ("move_time",):
+            a[("var", nm)] = ("ctor", SOME, (("var", nm.upper()),)) if nm in given else NONE
+        for p_ in players:
+            a[p_] = ("variant", "chess::Player::" + side)
+        return hir.fold(V, a)
+
+    def millis(v):
+        if v[0] == "ctor" and str(v[1]).endswith("Some") and v[2][0][0] == "call" and str(v[2][0][1]).endswith("Duration::from_millis"):
+            return v[2][0][2][0]
+        return None
+    own = {"White": ("wtime", "winc"), "Black": ("btime", "binc")}
+    budgets = {}
+    if V is not None:
+        # A4: an explicit movetime is the budget, whatever else was given
+        bad = []
+        for side in ("White", "Black"):
+            for given in (("move_time",), ("move_time",) + CLOCKS, ("move_time", "wtime", "winc")):
+                v = case(given, side)
+                if millis(v) != ("var", "MOVE_TIME"):
+                    bad.append((given, side, hir.fmt(v, 100)))
+        ctx.check("C13.A4", "fixed-time-is-the-given-value", not bad, fn=GO, file=fn["file"], what="`movetime` must be used as given (never extended)",
+                  expected="budget = Some(Duration::from_millis(move_time)) whenever movetime is given", found=bad[:3])
+        # A3: no movetime: a budget exists exactly when all four clock parameters were given
+        bad = []
+        for side in ("White", "Black"):
+            for missing in CLOCKS + (None,):
+                given = tuple(c for c in CLOCKS if c != missing) if missing else ()
+                v = case(given, side)
+                if v != NONE:
+                    bad.append((given, side, hir.fmt(v, 100)))
+        ctx.check("C13.A3", "clock-branch-needs-all-four-parameters", not bad, fn=GO, file=fn["file"],
+                  what="the clock budget is only defined when all four clock parameters were given", found=bad[:2])
+        for side in ("White", "Black"):
+            budgets[side] = millis(case(CLOCKS, side))
+    ctx.check("C13.A3", "budget-selected-by-side-to-move", bool(players) and all(budgets.get(s_) is not None for s_ in ("White", "Black")) and
+              budgets.get("White") != budgets.get("Black"), fn=GO, file=fn["file"],
+              what="the clock budget must be chosen by the side to move of the current game: one budget under player == White, one otherwise",
+              found={"side tests": [hir.fmt(p_, 60) for p_ in players], "budgets": {k: hir.fmt(v, 100) if v else None for k, v in budgets.items()}})
 
     def unwrapped(t):
-        """inputs named in a term; `x.unwrap()` and a pattern-bound `x` are the same thing here"""
         names = set()
         for s_ in hir.subterms(t):
             if len(s_) == 2 and s_[0] == "var":
-                names.add(s_[1])
+                names.add(s_[1].lower())
         return names & INPUTS
 
     def is_clock(t, clock):
-        return t == ("var", clock) or t == ("call", "std::option::Option::<T>::unwrap", (("var", clock),))
-    own = {"White": ("wtime", "winc"), "Black": ("btime", "binc")}
-    clock_cases = [c for c in cases if c[2] is not None and unwrapped(c[2]) & {"wtime", "btime", "winc", "binc"}]
-    fixed_cases = [c for c in cases if c not in clock_cases]
-    sides = {}
-    for c in clock_cases:
-        side = None
-        for t, pol in c[1]:
-            for S_, O_ in (("White", "Black"), ("Black", "White")):
-                for who in ("Game::player(game)", "game.current_player"):
-                    if (t == "(%s == Player::%s)" % (who, S_) and pol) or (t == "(%s == Player::%s)" % (who, O_) and not pol) or \
-                            (t == "(%s != Player::%s)" % (who, O_) and pol) or (t == "matches(%s, Player::%s)" % (who, S_) and pol):
-                        side = S_
-        sides.setdefault(side, []).append(c)
-    ctx.check("C13.A3", "budget-selected-by-side-to-move", set(sides) == {"White", "Black"} and all(len(v) == 1 for v in sides.values()), fn=GO,
-              file=fn["file"], line=hir.line(clock_cases[0][0]) if clock_cases else None,
-              what="the clock budget must be chosen by the side to move of the current game: one budget under player == White, one otherwise",
-              found={"sides": sorted(str(k) for k in sides), "cases": [(c[1][-2:], hir.fmt(c[3], 80)) for c in clock_cases]})
-    clock_assign = clock_cases[0][0] if clock_cases else None
+        return t == ("var", clock.upper())
+    clock_assign = None
     for side in ("White", "Black"):
-        if side not in sides:
+        x = budgets.get(side)
+        if x is None:
             continue
-        x = sides[side][0][2]
         clock, inc = own[side]
-        ok = x is not None and x[0] == "call" and str(x[1]).endswith("Ord::min") and any(is_clock(y, clock) for y in x[2])
-        ctx.check("C13.A2", "budget-clamped-by-own-clock:%s" % side, ok, fn=GO, file=fn["file"], line=hir.line(clock_assign),
+        ok = x[0] == "call" and str(x[1]).endswith("Ord::min") and any(is_clock(y, clock) for y in x[2])
+        ctx.check("C13.A2", "budget-clamped-by-own-clock:%s" % side, ok, fn=GO, file=fn["file"],
                   what="%s's budget is not limited by %s's remaining time: the increment is an independent input, so 2%% of the clock + "
                        "increment can exceed the clock (`go wtime 100 ... winc 5000`)" % (side, side),
                   expected="min(.., %s) as the outermost operation" % clock, found=hir.fmt(x, 300) if x else None)
-        names = unwrapped(x) if x is not None else set()
+        names = unwrapped(x)
         ctx.check("C13.A3", "budget-uses-own-clock-and-increment-only:%s" % side, names == {clock, inc}, fn=GO, file=fn["file"],
-                  line=hir.line(clock_assign), what="%s's budget must be computed from %s and %s" % (side, clock, inc),
+                  what="%s's budget must be computed from %s and %s" % (side, clock, inc),
                   expected=sorted((clock, inc)), found=sorted(names))
         # share factor <= 1 and latency subtracted, not added
         frac_ok = lat_ok = False
-        if x is not None:
-            for s_ in hir.subterms(x):
-                if len(s_) == 4 and s_[0] == "bin" and s_[1] == "*":
-                    for side_t in (s_[2], s_[3]):
-                        if side_t[0] == "const":
-                            b_ = F.const_bytes(side_t[1])
-                            v_ = struct.unpack("<d", b_)[0]
-                            frac_ok = 0.0 <= v_ <= 1.0
-                        if side_t[0] == "lit":
-                            try:
-                                frac_ok = 0.0 <= float(side_t[1]) <= 1.0
-                            except (TypeError, ValueError):
-                                pass
-                if len(s_) == 3 and s_[0] == "call" and str(s_[1]).endswith("saturating_sub"):
-                    lat_ok = True
-        ctx.check("C13.A2", "share-of-clock-at-most-1:%s" % side, frac_ok, fn=GO, file=fn["file"], line=hir.line(clock_assign),
+        for s_ in hir.subterms(x):
+            if len(s_) == 4 and s_[0] == "bin" and s_[1] == "*":
+                for side_t in (s_[2], s_[3]):
+                    if side_t[0] == "const":
+                        b_ = F.const_bytes(side_t[1])
+                        v_ = struct.unpack("<d", b_)[0]
+                        frac_ok = 0.0 <= v_ <= 1.0
+                    if side_t[0] == "lit":
+                        try:
+                            frac_ok = 0.0 <= float(side_t[1]) <= 1.0
+                        except (TypeError, ValueError):
+                            pass
+            if len(s_) == 3 and s_[0] == "call" and str(s_[1]).endswith("saturating_sub"):
+                lat_ok = True
+        ctx.check("C13.A2", "share-of-clock-at-most-1:%s" % side, frac_ok, fn=GO, file=fn["file"],
                   what="the fraction of the clock spent per move must be a constant in [0, 1]", found=frac_ok)
-    # clock branch requires all four parameters: is_some() tests, or one pattern that binds all four
-    four_ok = bool(clock_cases)
-    for c in clock_cases:
-        gt = " ".join(t for t, pol in c[1] if pol is True).replace("<T>::", "")
-        by_test = all(("is_some(%s)" % p_) in gt for p_ in ("wtime", "btime", "winc", "binc"))
-        by_pat = False
-        for l in c[4]:
-            vars_ = {s_[1] for s_ in hir.subterms(l[2]) if len(s_) == 2 and s_[0] == "var"}
-            pk_ = l[1]
-            if {"wtime", "btime", "winc", "binc"} <= vars_ and isinstance(pk_, tuple) and pk_[0] == "tup" and \
-                    all(isinstance(q, tuple) and q[0] == "variant" and str(q[1]).endswith("::Some") for q in pk_[1:]) and len(pk_) == 5:
-                by_pat = True
-        sep = [sum(1 for l in c[4] if l[1] == ("variant", "std::prelude::v1::Some") and l[2] == ("var", p_)) for p_ in ("wtime", "btime", "winc", "binc")]
-        four_ok = four_ok and (by_test or by_pat or all(n_ >= 1 for n_ in sep))
-    ctx.check("C13.A3", "clock-branch-needs-all-four-parameters", four_ok, fn=GO, file=fn["file"],
-              what="the clock budget is only defined when all four clock parameters were given",
-              found=[c[1][:4] for c in clock_cases][:2])
-    # A4
-    mt = fixed_cases
-    ok = len(mt) == 1 and hir.fmt(mt[0][3], 80) == "v1::Some(Duration::from_millis(move_time))"
-    g4 = [t for t, pol in mt[0][1] if pol is True] if mt else []
-    ctx.check("C13.A4", "fixed-time-is-the-given-value", ok and any("let(v1::Some, move_time" in t for t in g4), fn=GO, file=fn["file"],
-              line=hir.line(mt[0][0]) if mt else None, what="`movetime` must be used as given (never extended)",
-              expected="time = Some(Duration::from_millis(move_time))", found=[hir.fmt(c[3], 80) for c in mt])
-    # later adjustment: only a saturating subtraction of a constant
-    adj = [n for n in lets.get("time", []) if hir.strip(n["init"]).get("k") == "MethodCall"]
-    ok = False
-    if len(adj) == 1:
-        t_ = sym(adj[0]["init"])
-        # time.saturating_sub(<a constant duration>): the subtrahend mentions no variable
-        if t_[0] == "call" and str(t_[1]).endswith("Duration::saturating_sub") and len(t_[2]) == 2 and t_[2][0] == ("var", "time"):
-            ok = not any(x[:1] in (("var",), ("field",), ("index",)) for x in hir.subterms(t_[2][1]))
-    ctx.check("C13.A4", "only-a-saturating-safety-margin-is-subtracted", ok, fn=GO, file=fn["file"], line=hir.line(adj[0]) if adj else None,
-              what="after the budget is chosen it may only be reduced, with saturation", expected="time.saturating_sub(<constant duration>)",
-              found=[hir.fmt(sym(a["init"]), 80) for a in adj])
-    # A5
+    # A5 (and the A4 margin): what the timer sleeps on and what is announced
     ws, wsym = fmt_writes(fn, F)
     info = [w for w in ws if w[1] and w[1].startswith("info time")]
     ok = len(info) == 1 and bool(info[0][2])
     printed_nf = info[0][2][0][1] if ok else None
     slept_nf = None
-    roles = p14.closures_by_role(F)
     slept = None
+    timer_node = None
     if "timer" in roles:
         tfn = roles["timer"]
         # in the parent's HIR the closure body is inlined
         for n, anc in hir.walk(body):
             if n.get("k") == "Closure" and n.get("def") == tfn["path"]:
+                timer_node = n
                 for c, _ in hir.walk(n["body"]):
                     if c.get("k") == "Call" and hir.callee_of(c) == "std::thread::sleep":
                         slept = hir.fmt(sym(c["args"][0]), 80)
                         slept_nf = sym(c["args"][0])
-    # both must refer to the adjusted `time` binding: same innermost let
-    same_scope = False
-    if info and adj:
-        for n, anc in hir.walk(body):
-            if n is info[0][0]:
-                blk = [a for a in anc if a.get("k") == "Block" and not a.get("mac")][-1]
-                same_scope = any(st is adj[0] for st in blk.get("stmts") or [])
+    # the names the budget test binds (`if let Some(time) = ..` / `Some(time) if ..`): innermost Some-pattern guard of the timer
+    tg = (hir.guards_of(timer_node, body, sym) or []) if timer_node is not None else []
+    some_guards = [x for x in tg if (x[0] == "if" and x[1][0] == "let" and "Some" in str(x[1][1][1:2])) or
+                   (x[0] == "arm" and isinstance(x[2], tuple) and "Some" in str(x[2][1:2]))]
+    bound = set()
+    if some_guards:
+        x = some_guards[-1]
+        bound = set(x[1][3]) if x[0] == "if" else set(x[3])
+    # later adjustment: only a saturating subtraction of a constant from the budget the test bound
+    ok4 = False
+    if slept_nf is not None and slept_nf[0] == "call" and str(slept_nf[1]).endswith("Duration::saturating_sub") and len(slept_nf[2]) == 2 \
+            and slept_nf[2][0][0] == "var" and slept_nf[2][0][1] in bound:
+        ok4 = not any(x[:1] in (("var",), ("field",), ("index",)) for x in hir.subterms(slept_nf[2][1]))
+    adj = [n for n in lets.get("time", []) if slept_nf is not None and sym(n["init"]) == slept_nf]
+    ctx.check("C13.A4", "only-a-saturating-safety-margin-is-subtracted", ok4, fn=GO, file=fn["file"], line=hir.line(adj[0]) if adj else None,
+              what="after the budget is chosen it may only be reduced, with saturation", expected="<budget>.saturating_sub(<constant duration>)",
+              found=slept)
     same_value = printed_nf is not None and slept_nf is not None and printed_nf == ("call", "std::time::Duration::as_millis", (slept_nf,))
     adjusted = slept_nf is not None and slept_nf[0] == "call" and str(slept_nf[1]).endswith("Duration::saturating_sub")
-    ctx.check("C13.A5", "announced-budget-is-the-enforced-budget", ok and same_value and adjusted and same_scope, fn=GO, file=fn["file"],
+    ctx.check("C13.A5", "announced-budget-is-the-enforced-budget", ok and same_value and adjusted, fn=GO, file=fn["file"],
               line=hir.line(info[0][0]) if info else None,
               what="the value printed as `info time`, the value the timer sleeps on must be the same adjusted budget",
-              found={"printed": hir.fmt(info[0][2][0][1], 60) if info and info[0][2] else None, "slept": slept, "same scope": same_scope})
-    # no timer when infinite
-    spawn_g = []
+              found={"printed": hir.fmt(info[0][2][0][1], 60) if info and info[0][2] else None, "slept": slept})
+    # no timer when infinite: the spawn is reached exactly when the budget is Some and `infinite` is false
+    armed_ok, spawn_g = False, []
     for n, anc in hir.walk(body):
         if n.get("k") == "Closure" and "timer" in roles and n.get("def") == roles["timer"]["path"]:
-            spawn_g = [(hir.fmt(x[1], 60), x[2]) for x in (hir.guards_of(n, body, sym) or []) if x[0] == "if"]
-    ctx.check("C13.A5", "timer-armed-iff-budget-and-not-infinite", ("infinite", False) in spawn_g and any(t.startswith("let(v1::Some, time") for t, p in spawn_g),
+            g = hir.guards_of(n, body, sym) or []
+            spawn_g = [(hir.fmt(x[1], 60), x[2] if x[0] == "if" else hir.fmt(x[2], 30)) for x in g if x[0] in ("if", "arm")]
+            scr = [(x[1][2] if x[0] == "if" else x[1]) for x in some_guards]
+            reach = hir.guards_term(g)
+            INF = ("var", "infinite")
+            if scr:
+                some_d = ("ctor", "std::prelude::v1::Some", (("var", "D"),))
+                none_d = ("variant", "std::prelude::v1::None")
+                # outer tests (e.g. a game is loaded) hold; what their patterns bind is named in the keys of the inner ones
+                base, ren = {}, {}
+                for k_, (t_, x_) in enumerate(zip(scr[:-1], some_guards[:-1])):
+                    base[hir.subst(t_, ren)] = ("ctor", "std::prelude::v1::Some", (("var", "G%d" % k_),))
+                    nms = x_[1][3] if x_[0] == "if" else x_[3]
+                    if len(nms) == 1:
+                        ren[("var", nms[0])] = ("var", "G%d" % k_)
+                budget_key = hir.subst(scr[-1], ren)
+
+                def under(budget, inf):
+                    a_ = dict(base)
+                    a_[budget_key] = budget
+                    a_[INF] = ("lit", inf)
+                    return hir.fold(reach, a_)
+                armed_ok = under(some_d, False) == ("lit", True) and hir.all_leaves_false(under(some_d, True)) and \
+                    hir.all_leaves_false(under(none_d, False))
+    ctx.check("C13.A5", "timer-armed-iff-budget-and-not-infinite", armed_ok,
               fn=GO, file=fn["file"], what="the timer must be armed exactly when a budget exists and `infinite` was not given", found=spawn_g)
     # A6: the budget is *enforced*: the flag the timer clears is observed at every interior node and an abort unwinds at once
     from . import p07
